@@ -184,6 +184,13 @@ func main() {
 						return nil
 					})
 				}
+				if measured%8 == 4 {
+					// the routes of another verb come and go (a committed partial Truncate): what is left is still served
+					// without allocating
+					_, _ = f2.Handle("POST", "/zz-post/{a}/{b}", h2)
+					_ = f2.Updates(func(t *fox.Txn) error { return t.Truncate("POST") })
+					run.Count("measured_after_partial_truncate", 1)
+				}
 				if measured%8 == 0 {
 					// handles taken on the tree that a later commit replaces, released only afterwards: a Lookup context, an
 					// iterator used for Reverse, a CloneWith copy
@@ -240,4 +247,54 @@ func main() {
 		}
 	}
 	run.Count("measured_requests", int64(measured))
+	deepHosts(run, w)
+}
+
+// deepHosts: hostnames of many labels, every label also reachable through a {param} sibling whose continuation does
+// not fit the request: the lookup goes down the static labels and sets one alternative aside per label.
+func deepHosts(run *kit.Run, w *nullW) {
+	for _, labels := range []int{2, 3, 5, 8, 9, 10, 12, 16, 24} {
+		f, err := fox.New()
+		if err != nil {
+			run.Inconclusive("fox.New: %v", err)
+			return
+		}
+		hit := 0
+		h := func(c fox.Context) { hit++ }
+		ls := make([]string, labels)
+		for i := range ls {
+			ls[i] = fmt.Sprintf("l%d", i)
+		}
+		full := strings.Join(ls, ".")
+		var routes []string
+		add := func(p string) {
+			if _, err := f.Handle("GET", p, h); err == nil {
+				routes = append(routes, p)
+			}
+		}
+		add(full + "/x/{id}")
+		for k := 0; k < labels; k++ {
+			alt := append([]string(nil), ls[:k]...)
+			alt = append(alt, fmt.Sprintf("{h%d}", k), "zz")
+			add(strings.Join(alt, ".") + "/x/{id}")
+		}
+		for _, host := range []string{full, full + ":8080"} {
+			req := &http.Request{Method: "GET", Host: host, URL: &url.URL{Path: "/x/42"}, Header: http.Header{}}
+			for i := 0; i < 10; i++ {
+				f.ServeHTTP(w, req)
+			}
+			hit = 0
+			allocs := testing.AllocsPerRun(100, func() { f.ServeHTTP(w, req) })
+			id := fmt.Sprintf("deep-host|labels=%d|%s", labels, host)
+			run.Case(id, true)
+			run.Count("measured_deep_hostnames", 1)
+			if hit == 0 {
+				run.Violate("not-served|"+id, fmt.Sprintf("host %s is not served by %s", host, routes[0]), nil)
+				continue
+			}
+			if allocs > 0 {
+				run.Violate("allocates-deep-host|"+id, fmt.Sprintf("routing a request for a hostname of %d labels (every label also has a {param} sibling) allocates %.2f objects per request\nroutes: %v\nhost: %s", labels, allocs, routes, host), nil)
+			}
+		}
+	}
 }
